@@ -5,8 +5,9 @@
     meson format a substituted value is never scanned again for placeholders.  A header generated
     without a template defines exactly the keys of the data, once each, in sorted order."
    Templates are segment lists (Subst/Spec.v); render_all is the template text, expand_all what the
-   property says it must become, missing the undefined names.  The cmake theorems are about the
-   behaviour with pending/C14-cmake-splice-advance.diff and pending/C14-cmakedefine-indent.diff. *)
+   property says it must become, missing the undefined names.  The model is of the behaviour with the
+   C14 fixes applied: cmake-splice-advance and cmakedefine-indent (in /repo), and the pending
+   pending/C14-mesondefine-value-rescanned.diff and pending/C14-define-line-eol.diff. *)
 From MV Require Import Base.Strs Subst.Data Subst.Meson Subst.CMake Subst.Conf Subst.Header Subst.Spec.
 From MV Require Import Subst.ProofsMeson Subst.ProofsCMake Subst.ProofsConf Subst.ProofsHeader.
 From Coq Require Import Sorting.Permutation Sorting.Sorted.
@@ -55,7 +56,8 @@ Proof. exact readlines_lossless. Qed.
 Print Assumptions C14_readlines_lossless.
 
 (* a whole template in the meson format: ordinary lines (segment lists, their CR / LF / CRLF
-   terminators being ordinary Lit characters) and #mesondefine lines in any spacing *)
+   terminators being ordinary Lit characters) and #mesondefine lines in any spacing and with any
+   terminator: every line keeps its own line ending (mline_out: form ++ eol; LF when there is none) *)
 Theorem C14_meson_file : forall (d : conf) (mls : list mline),
   forallb mline_wf mls = true ->
   do_conf_str_meson d (map mline_text mls)
@@ -80,38 +82,23 @@ Theorem C14_mesondefine_forms : forall (d : conf) (lead mid name trail : str),
 Proof. exact mesondefine_forms. Qed.
 Print Assumptions C14_mesondefine_forms.
 
-(* string values: the full-strength statement ("#define NAME value", value verbatim) is REFUTED -
-   the value is scanned once more (known finding C14:mesondefine-value-rescanned) ... *)
-Theorem C14_mesondefine_string_refuted :
-  exists d name v, lookup d name = Some (VStr v) /\
-    do_define_meson d (define_line [] [32] name [10]) <> Ok (define_text d name ++ [10]).
-Proof. exact mesondefine_string_refuted. Qed.
-Print Assumptions C14_mesondefine_string_refuted.
-
-(* ... and holds under the guard: the value has no '@', no '\' and no blank at its end *)
-Theorem C14_mesondefine_string_partial : forall (d : conf) (lead mid name trail v : str) (z : char),
-  blank lead = true -> blank mid = true -> mid <> [] -> token name = true -> blank trail = true ->
-  lookup d name = Some (VStr (v ++ [z])) ->
-  forallb plain_char (name ++ v ++ [z]) = true -> is_space z = false ->
-  do_define_meson d (define_line lead mid name trail) = Ok (define_text d name ++ [10]).
-Proof. exact mesondefine_string_partial. Qed.
-Print Assumptions C14_mesondefine_string_partial.
-
-(* what a string value gives in general (as the code is) *)
-Theorem C14_mesondefine_string_as_is : forall (d : conf) (lead mid name trail v : str),
+(* string values: "#define NAME value" for EVERY value (it may contain '@', '\' or whole
+   placeholders: it is written as it is, never scanned); only blanks at the end of the value are
+   dropped (the line is .strip()ped) *)
+Theorem C14_mesondefine_string : forall (d : conf) (lead mid name trail v : str),
   blank lead = true -> blank mid = true -> mid <> [] -> token name = true -> blank trail = true ->
   lookup d name = Some (VStr v) ->
   do_define_meson d (define_line lead mid name trail)
-  = Ok (fst (subst_meson d (strip (s2l "#define " ++ name ++ [32] ++ v) ++ [10]))).
-Proof. exact mesondefine_string_as_is. Qed.
-Print Assumptions C14_mesondefine_string_as_is.
+  = Ok (s2l "#define " ++ name ++ rstrip (32 :: v) ++ [10]).
+Proof. exact mesondefine_string. Qed.
+Print Assumptions C14_mesondefine_string.
 
-(* "copies ... line endings unchanged" is REFUTED for define lines: the line is rebuilt with LF
-   (known finding C14:define-line-framing) *)
-Theorem C14_define_line_eol_refuted :
-  exists d line out, do_define_meson d (line ++ [13; 10]) = Ok out /\ suffixb [13; 10] out = false.
-Proof. exact define_line_eol_refuted. Qed.
-Print Assumptions C14_define_line_eol_refuted.
+Theorem C14_mesondefine_string_verbatim : forall (d : conf) (lead mid name trail v : str) (z : char),
+  blank lead = true -> blank mid = true -> mid <> [] -> token name = true -> blank trail = true ->
+  lookup d name = Some (VStr (v ++ [z])) -> is_space z = false ->
+  do_define_meson d (define_line lead mid name trail) = Ok (define_text d name ++ [10]).
+Proof. exact mesondefine_string_verbatim. Qed.
+Print Assumptions C14_mesondefine_string_verbatim.
 
 (* ---- cmake formats: @VAR@, ${VAR}, #cmakedefine[01] ---- *)
 
@@ -125,12 +112,44 @@ Proof. exact do_conf_text_total. Qed.
 Print Assumptions C14_processing_terminates.
 
 (* exact replacement for ALL data: values verbatim (never rescanned), nothing after a value
-   skipped, undefined names reported *)
+   skipped, nested ${..${..}..} references evaluated inside out (CNested; cseg_ok: every nested
+   reference computes a variable name), undefined names reported *)
 Theorem C14_cmake_exact_replacement : forall (at_only : bool) (d : conf) (l : list cseg),
-  wf_csegs at_only l = true ->
+  wf_csegs at_only l = true -> forallb (cseg_ok d) l = true ->
   subst_cmake at_only d (crender_all l) = Ok (cexpand_all d l, cmissing d l).
 Proof. exact cmake_segments. Qed.
 Print Assumptions C14_cmake_exact_replacement.
+
+(* the text between "${" and "}" alone: the scanner computes exactly the inside-out value *)
+Theorem C14_cmake_nested_expression : forall (d : conf) (e : nexpr) (fuel : nat),
+  wf_nexpr e = true -> (length (nrender e) < fuel)%nat ->
+  cm_scan fuel false d (nrender e) = of_opt (neval d e).
+Proof. exact cm_scan_nexpr. Qed.
+Print Assumptions C14_cmake_nested_expression.
+
+(* the error cases, after ANY well-formed prefix: a nested reference that does not compute a
+   variable name, and a "${" the bracket matcher rejects, raise a MesonException ... *)
+Theorem C14_cmake_bad_nested_name_is_error : forall (d : conf) (l : list cseg) (e : nexpr) (after : str),
+  wf_tail false l (crender (CNested e) ++ after) = true -> forallb (cseg_ok d) l = true ->
+  wf_nexpr e = true -> nvalue d e = None ->
+  subst_cmake false d (crender_all l ++ crender (CNested e) ++ after) = MesonErr.
+Proof. exact cmake_bad_nested_name. Qed.
+Print Assumptions C14_cmake_bad_nested_name_is_error.
+Theorem C14_cmake_bad_brackets_is_error : forall (d : conf) (l : list cseg) (t : str),
+  wf_tail false l (36 :: 123 :: t)%N = true -> forallb (cseg_ok d) l = true ->
+  brackets 0 t = None ->
+  subst_cmake false d (crender_all l ++ 36 :: 123 :: t)%N = MesonErr.
+Proof. exact cmake_bad_brackets. Qed.
+Print Assumptions C14_cmake_bad_brackets_is_error.
+(* ... the matcher rejects a "${" that is never closed, and an invalid character after name characters *)
+Theorem C14_cmake_unterminated_rejected : forall (t : str) (cnt : nat),
+  forallb (fun c => negb (N.eqb c 125)) t = true -> brackets cnt t = None.
+Proof. intros t cnt. exact (brackets_unterminated (length t) t cnt (le_n _)). Qed.
+Print Assumptions C14_cmake_unterminated_rejected.
+Theorem C14_cmake_invalid_char_rejected : forall (cnt : nat) (s : str) (c : char) (t : str),
+  forallb cm_valid s = true -> bad_in_braces c t = true -> brackets cnt (s ++ c :: t) = None.
+Proof. exact brackets_invalid_char. Qed.
+Print Assumptions C14_cmake_invalid_char_rejected.
 
 Theorem C14_cmake_plain_text_unchanged : forall (at_only : bool) (d : conf) (s : str),
   forallb (fun c => negb (N.eqb c 64) && (at_only || negb (N.eqb c 36))) s = true ->
@@ -140,6 +159,7 @@ Print Assumptions C14_cmake_plain_text_unchanged.
 
 Theorem C14_cmake_file : forall (at_only : bool) (d : conf) (ls : list (list cseg)),
   forallb (wf_csegs at_only) ls = true ->
+  forallb (forallb (cseg_ok d)) ls = true ->
   forallb ordinary_cmake (map crender_all ls) = true ->
   do_conf_str_cmake at_only d (map crender_all ls)
   = Ok (mk_out (map (cexpand_all d) ls) (concat (map (cmissing d) ls))
